@@ -514,7 +514,14 @@ impl Scenario for Extract {
                 return Verdict::Pass; // confinement + unsafe-name rule only
             }
             if faulty {
-                return Verdict::Pass; // confinement + no panic + Err-or-complete only
+                ctx.probe("reader_fault_fired_during_extraction");
+                if res.is_err() {
+                    return Verdict::Pass; // confinement + no panic; objects from earlier entries may remain
+                }
+                // extract() returned Ok although the reader failed once (a retried EINTR, say): then the tree
+                // must be complete all the same - "an error reported by some call or a result identical to the
+                // failure-free run"
+                ctx.probe("extraction_succeeded_despite_a_reader_fault");
             }
             // faithful half: safe and mutually consistent names
             let mut seen = BTreeSet::new();
